@@ -4,8 +4,8 @@ EXPLANATION = ("Send/Sync answered by rustc's trait solver for Scanner, ScannerI
                "compile_fail witnesses in the thorough tier); no hand-made unsafe impl; closed, content-checked list of two unsafe blocks with "
                "the side conditions of the unchecked index (ids minted only by the registry, table only grows, predicates created after the "
                "last registration); one lock, acquired exclusively once per build, guard is a temporary, nothing reachable from "
-               "ScannerCache::get touches the lock again; no other shared mutable state (type walk). Lock poisoning after a panic is covered "
-               "by the panic inventory of C15, not here.")
+               "ScannerCache::get touches the lock again; no other shared mutable state (type walk). Lock poisoning: the panic-site inventories of the build path "
+               "(C15.h, runs under the write lock) and of the scan path (C07.d) are re-checked here.")
 RULES = {"C14.a", "C14.b", "C14.c", "C14.d", "C14.e"}
 
 
@@ -14,3 +14,7 @@ def check(ctx):
         from . import witness
         witness.analyze(ctx, "C14.a")
     sharing.analyze(ctx, RULES)
+    # 'no call panics': a panic on the build path happens under the cache's write lock and poisons it for every
+    # other thread; a panic on the scan path kills the scanning thread.  Both inventories are part of this property.
+    from . import panics
+    panics.analyze(ctx, {"C15.h", "C07.d"})
